@@ -619,3 +619,62 @@ mapping_warnings = FunctionContract(
             ("if len(out_idxs) > 1 and", "if len(out_idxs) > 2 and")],
 )
 CONTRACTS.append(mapping_warnings)
+
+
+# ------------------------------------------------------------------ DoMapping.run_system: molecule by molecule
+MolIn, MolOut = TKey('MolIn'), TKey('MolOut')
+
+
+def setup_dm_run(cx):
+    mols = cx.val('MOLS_IN', TSeq(MolIn))
+    cx.spec_env['MOLS_IN'] = mols
+    mapped = cx.uf('mapped', [MolIn], MolOut)               # do_mapping(molecule, ...): by the contracts above
+    empty = cx.uf('is_empty', [MolOut], TBool)              # the result has no particle (bool(molecule) is False)
+    fails = cx.uf('unknown_residue', [MolIn], TBool)        # do_mapping raises KeyError
+    cx.eng.truth_hooks['MolOut'] = lambda e, v: z3.Not(empty(v.e))
+    keep, must, stash, mappings, to_ff = Obj('keep'), Obj('must'), Obj('stash'), Obj('mappings'), Obj('to_ff')
+    cx.spec_env['TO_FF'] = to_ff
+
+    def do_mapping_(e, molecule, mappings=None, to_ff=None, attribute_keep=(), attribute_must=(), attribute_stash=()):
+        e.oblige(mappings is self.attrs['mappings'] and to_ff is self.attrs['to_ff'] and attribute_keep is keep and attribute_must is must and
+                 attribute_stash is stash, 'do_mapping:gets-this-processor-parameters')
+        me = to_z3(molecule, MolIn)
+        e.maybe_raise(z3.Not(fails(me)), 'KeyError')
+        return SV(MolOut, mapped(me))
+    cx.spec_env['do_mapping'] = Builtin(do_mapping_, 'do_mapping')
+    self = cx.obj('DoMapping', mappings=mappings, to_ff=to_ff, delete_unknown=cx.val('delete_unknown', TBool), attribute_keep=keep,
+                  attribute_must=must, attribute_stash=stash)
+    system = Obj('System', molecules=Box(TSeq(MolIn), mols.e), force_field=Obj('old_ff'))
+    return dict(self=self, system=system)
+
+
+DM_INV = [
+    "len(g_src) == len(mols)",
+    "forall(lambda q: implies(0 <= q and q < len(g_src), 0 <= g_src[q] and g_src[q] < {I} and not is_empty(mapped(MOLS_IN[g_src[q]])) and "
+    "   mols[q] == mapped(MOLS_IN[g_src[q]])))",
+    "forall(lambda p, q: implies(0 <= p and p < q and q < len(g_src), g_src[p] < g_src[q]))",
+    "forall(lambda i: implies(0 <= i and i < {I} and not is_empty(mapped(MOLS_IN[i])), i in g_pos and 0 <= g_pos[i] and g_pos[i] < len(g_src) and "
+    "   g_src[g_pos[i]] == i))",
+    "forall(lambda i: implies(0 <= i and i < {I}, not unknown_residue(MOLS_IN[i])))",
+]
+dm_run_system = FunctionContract(
+    F, 'DoMapping.run_system', 'C01', setup=setup_dm_run, spec_env=dict(MolIn=MolIn),
+    locals=dict(mols=TSeq(MolOut), g_src=TSeq(TInt), g_pos=TMap(TInt, TInt)), ghost_at={'entry': "g_src = []\ng_pos = {}"},
+    ensures=[
+        # the system afterwards holds, in order, the mapped version of every molecule that maps to at least one particle - no molecule
+        # is lost or duplicated - and its force field is the target force field
+        "len(system.molecules) == len(g_src) and forall(lambda q: implies(0 <= q and q < len(g_src), system.molecules[q] == mapped(MOLS_IN[g_src[q]])))",
+    ] + [x.format(I='len(MOLS_IN)').replace('mols[q]', 'system.molecules[q]').replace('len(mols)', 'len(system.molecules)') for x in DM_INV] + [
+        "system.force_field is TO_FF"],
+    # a molecule with a residue no mapping knows: KeyError, the system is left as it was
+    raises={'KeyError': ["exists(lambda i: 0 <= i and i < len(MOLS_IN) and unknown_residue(MOLS_IN[i]))",
+                         "len(system.molecules) == len(MOLS_IN) and forall(lambda i: implies(0 <= i and i < len(MOLS_IN), system.molecules[i] == MOLS_IN[i]))"]},
+    modifies=['system.molecules', 'system.force_field'],
+    loops={'L1': LoopSpec(inv=[x.format(I='_i') for x in DM_INV] + [
+        "len(system.molecules) == len(MOLS_IN) and forall(lambda i: implies(0 <= i and i < len(MOLS_IN), system.molecules[i] == MOLS_IN[i]))"],
+        modifies=['mols', 'g_src', 'g_pos'], locals=dict(g_n0=TInt), ghost_pre="g_n0 = len(mols)",
+        ghost_end="if len(mols) > g_n0:\n    g_src.append(_i)\n    g_pos[_i] = len(g_src) - 1")},
+    canary=[("if new_molecule:", "if not new_molecule:"), ("system.force_field = self.to_ff", "pass"),
+            ("attribute_keep=self.attribute_keep,", "attribute_keep=self.attribute_must,")],
+)
+CONTRACTS.append(dm_run_system)
